@@ -67,10 +67,12 @@ def v6(rng, base=None):
     return str(ipaddress.ip_address((0x20010DB8 << 96) + rng.randrange(1 << 64)))
 
 
-def gen_world(rng, nrec=25, nloc=2, with_maps=True, with_ecs=True, default_routes=False, loc_zone=True, weights=True):
+def gen_world(rng, nrec=25, nloc=2, with_maps=True, with_ecs=True, default_routes=False, loc_zone=True, weights=True, locs=None):
     w = World()
     w.locs = [0] + [rng.choice([1, 2, 3, 258, 0x4142][: 3 + i]) + 0 for i in range(nloc)]
     w.locs = [0] + sorted(set(w.locs[1:]))
+    if locs:
+        w.locs = [0] + list(locs)
     zone = rng.choice(["z", "ex.com", "a.bb"])
     w.zones.append(zone)
     tloc = lambda p=0.25: rng.choice(w.locs[1:]) if (len(w.locs) > 1 and rng.random() < p) else 0
